@@ -37,7 +37,7 @@ func runC01(c *engine.Ctx) {
 	checkHandOverFlags(c, "R13")
 	checkFreshLookup(c, "R14") // shared with C06.R13: a connection is bridged to the listener the registry names now
 	checkMuxPriorities(c, "R15")
-	checkThrowawayBufio(c, "R16") // shared with C16.R22: a read-ahead reader that is dropped swallows the head of the stream
+	checkThrowawayBufio(c, "R16")     // shared with C16.R22: a read-ahead reader that is dropped swallows the head of the stream
 	checkInWorkConnDispatch(c, "R17") // shared with C19.R3: a work connection that is not dispatched is closed (its user would hang)
 }
 
@@ -932,9 +932,10 @@ func checkRouterDuplicates(c *engine.Ctx, rule string) {
 	c.Rule(rule, "a host can be claimed by one proxy only: Routers.Add tests for duplicates with the lower-cased host and writes only when none exists")
 	add := fn(c, "pkg/util/vhost.Routers.Add")
 	existObj := p.MethodObj("pkg/util/vhost", "Routers", "exist")
-	if add == nil || existObj == nil {
+	if add == nil {
 		return
 	}
+	dupOf := routerDuplicateVerdict(c, add)
 	n := 0
 	lowered := func(v ssa.Value) bool {
 		src := engine.Provenance(v, engine.ProvOpts{})
@@ -945,7 +946,11 @@ func checkRouterDuplicates(c *engine.Ctx, rule string) {
 		}
 		return false
 	}
-	for _, call := range engine.CallsTo(add, existObj) {
+	var existCalls []ssa.CallInstruction
+	if existObj != nil {
+		existCalls = engine.CallsTo(add, existObj)
+	}
+	for _, call := range existCalls {
 		n++
 		c.Check(lowered(engine.CallArgs(call)[1]), "pkg/util/vhost.Routers.Add>exist-arg", call.Pos(), 1, nil, "duplicate test uses the lower-cased host (App.Example.com vs app.example.com would otherwise both register and be cross-wired)")
 	}
@@ -955,14 +960,14 @@ func checkRouterDuplicates(c *engine.Ctx, rule string) {
 			return
 		}
 		n++
-		c.AllPaths("pkg/util/vhost.Routers.Add>write", engine.PathCheck{Fn: add, Sink: engine.Is(mu), Pred: func(st *engine.PathState) string {
-			if v, k := st.Truth(extractOf(existObj, 1)); !(k && !v) {
+		c.AllPaths("pkg/util/vhost.Routers.Add>write", engine.PathCheck{Fn: add, Sink: engine.Is(mu), KeepLoopFacts: true, Pred: func(st *engine.PathState) string {
+			if v, k := dupOf(st); !(k && !v) {
 				return "a route is written although a route for the same host, location and user exists"
 			}
 			return ""
 		}}, "write only for a new triple")
 	})
-	c.Floor(n, 2)
+	c.Floor(n, 1)
 }
 
 // ---- R10 ----
